@@ -327,6 +327,9 @@ pub fn run(ctx: &Ctx) -> i32 {
     cfg3.bias = crate::model::gen::Bias::Sort;
     cfg3.hazards = vec!["sorted_let"];
     ctx.tape_search("hazard/sorted_let+readers", ctx.n(4_000, 100_000), 400, |t| gen_case(t, cfg3.clone()), |c| check_hazard(c, &ctx.known));
+    if !ctx.quick() {
+        ctx.fuzz_campaign("tape_c01", ctx.fuzz_secs(240), 1200);
+    }
     ctx.finish(
         RULE,
         &[
